@@ -26,6 +26,8 @@ class Profile(object):
   max_events = 30
   sandbox_death_is_violation = False
   cpu_timeout_is_violation = False    # C18: termination is the property
+  fresh_replay_attempts = 1
+  observed_difference_is_witness = False   # C30: two processes that disagreed are the violation
 
   # -- evidence texts ---------------------------------------------------------------------------
   def rule_text(self):
